@@ -136,10 +136,15 @@ def run(chk, repo, tier):
     for p in returns(paths):
         n += 1
         env = {('sym', 'alpha_flux'): Rng(0, INF), ('sym', 'proton_flux'): Rng(0, INF)}
-        rr = Ranges(env=env, loops=p.state.loops).of(p.ret)
-        okn = okn and rr.nonneg
+        rg = Ranges(env=env, loops=p.state.loops)
+        rr = rg.of(p.ret)
+        if not rr.nonneg and rg.unknown:
+            okn = None if okn is not False else okn
+            det = f'undecided: no range model for {rg.unknown[0]}'
+            continue
+        okn = (okn and rr.nonneg) if okn is not None else (False if not rr.nonneg else None)
         det = f'range {rr!r}'
-    chk.ob('C18-f', 'R-sign', f.key, 'deposited charge is non-negative', okn and n > 0, det, f.loc())
+    chk.ob('C18-f', 'R-sign', f.key, 'deposited charge is non-negative', (okn and n > 0) if okn is not None else None, det, f.loc())
 
 
 def _ps_rules(chk, repo):
@@ -163,8 +168,11 @@ def _ps_path(chk, f, p):
     if len(cnts) == 1:
         opd0 = cnts[0][2][0]
         c = r / opd0
-        lhs = c ** 2 * nf.app('sum', nf_abs(opd0) ** 2) / nf.app('count_nonzero', opd0)
-        okr = lhs == S('rms') ** 2
+        # the mean square may be written with |x|**2 or x**2 (the surface is real)
+        okr = False
+        for sq in (nf_abs(opd0) ** 2, opd0 ** 2):
+            lhs = c ** 2 * nf.app('sum', sq) / nf.app('count_nonzero', opd0)
+            okr = okr or lhs == S('rms') ** 2
         det = f'c^2*sum|opd|^2/count = {fmt(lhs)[:120]}'
     chk.ob('C18-e', 'N-identity', f.key, 'RMS over the mask equals rms', okr, det, f.loc(p.node))
     decl = declare_2d('mask')
